@@ -13,6 +13,7 @@ TRUSTED = [
     "the unfold loop (ICal.unfold, shared with C17) and RDATE/EXDATE/DTSTART parameters are in the model and the correspondence but no theorem is stated about them; multi_line_builds_set is for parameter-less lines joined by newlines without unfold",
 ]
 ASSUMPTIONS = [
+    "the theorems str_roundtrip* / str_roundtrip_rule are about calendar.firstweekday() == 0 (the interpreter's default); str_roundtrip_rule_ambient states the ambient value explicitly; the oracle and the correspondence also run under setfirstweekday(0..6)",
     "texts in the correspondence are ASCII (str.upper/split/splitlines/int are modelled for ASCII)",
     "aware dtstart through str() is excluded by the property itself (upstream xfail)",
 ]
@@ -29,7 +30,7 @@ class Timeout(Exception):
 def _alarm(*a):
     raise Timeout()
 
-def limited(fn, secs=0.25):
+def limited(fn, secs=0.1):
     old = signal.signal(signal.SIGALRM, _alarm)
     signal.setitimer(signal.ITIMER_REAL, secs)
     try:
@@ -49,19 +50,27 @@ def gen_kwargs(rng, small_years=True):
     y = rng.choice([1, 99, 999, 1000, 1997, 2000, 2024, 9990] if small_years else [1997, 2000, 2024])
     ds = datetime.datetime(y, rng.randint(1, 12), rng.randint(1, 28), rng.randint(0, 23), rng.randint(0, 59), rng.randint(0, 59))
     # interval 0 and negative intervals are accepted by the constructor and printed by __str__ (INTERVAL is omitted only for 1)
-    kw = dict(interval=rng.choice([1, 1, 1, 2, 2, 3, 3, 10, 10, 0, -2]))
+    # (one-, two-, three- and many-digit values: str() / int() are proved for every Int, the generators must reach them)
+    kw = dict(interval=rng.choice([1, 1, 1, 2, 2, 3, 3, 9, 10, 10, 11, 12, 99, 100, 1000, 12345678901234567890, 0, -2, -10]))
     if rng.random() < .5:
         kw["wkst"] = rng.choice([0, 1, 6, R.MO, R.SU, R.TU])
     some = lambda pool, k=3: rng.sample(pool, rng.randint(1, k))
     if rng.random() < 0.3: kw["bymonth"] = some(list(range(1, 13)))
-    if rng.random() < 0.25: kw["bymonthday"] = some([1, 15, 28, 31, -1, -2])
-    if rng.random() < 0.15: kw["byyearday"] = some([1, 60, 100, 366, -1, -366])
-    if rng.random() < 0.15: kw["byweekno"] = some([1, 20, 53, -1])
+    if rng.random() < 0.25: kw["bymonthday"] = some([1, 9, 10, 15, 28, 31, -1, -2, -9, -10, -31])
+    if rng.random() < 0.15: kw["byyearday"] = some([1, 9, 10, 60, 99, 100, 366, -1, -9, -10, -99, -100, -366])
+    if rng.random() < 0.15: kw["byweekno"] = some([1, 9, 10, 20, 53, -1, -9, -10, -53])
     if rng.random() < 0.35:
+        # rrule.weekday accepts every n != 0; +-53 is the largest that can occur (YEARLY), larger ones never match
+        # (ordinals that can never match make the iteration run dry: kept, but rare, and rarer for MONTHLY where |n| <= 5 matters)
+        def nth():
+            r = rng.random()
+            if r < 0.08: return rng.choice([54, 100, -100, -366])
+            if freq == 1 and r < 0.8: return rng.choice([1, 2, -1, -2, 5, -5])
+            return rng.choice([1, 2, -1, -2, 5, -5, 9, -9, 10, -10, 11, -11, 12, 25, -25, 52, -52, 53, -53])
         kw["byweekday"] = [rng.choice([rng.randint(0, 6), R.weekdays[rng.randint(0, 6)],
-                                       R.weekdays[rng.randint(0, 6)](rng.choice([1, 2, -1, -2, 5, -5])) ]) for _ in range(rng.randint(1, 3))]
-    if rng.random() < 0.1: kw["byeaster"] = some([0, 1, -2, 49])
-    if rng.random() < 0.15: kw["bysetpos"] = some([1, 2, -1, 3])
+                                       R.weekdays[rng.randint(0, 6)](nth()), R.weekdays[rng.randint(0, 6)](nth())]) for _ in range(rng.randint(1, 3))]
+    if rng.random() < 0.1: kw["byeaster"] = some([0, 1, -2, 9, 10, 49, -49, 100, -100, 200])
+    if rng.random() < 0.15: kw["bysetpos"] = some([1, 2, -1, 3, 9, 10, -10, 100, 366, -366])
     if rng.random() < 0.15: kw["byhour"] = some(list(range(24)))
     if rng.random() < 0.15: kw["byminute"] = some(list(range(60)))
     if rng.random() < 0.15: kw["bysecond"] = some(list(range(60)))
@@ -70,13 +79,21 @@ def gen_kwargs(rng, small_years=True):
         kw[rng.choice(["bymonth", "bymonthday", "byyearday", "byweekno", "byweekday", "byeaster", "bysetpos", "byhour", "byminute", "bysecond"])] = rng.choice([(), []])
     r2 = rng.random()
     if r2 < 0.4:
-        kw["count"] = rng.randint(0, 6)
+        kw["count"] = rng.choice([0, 1, 2, 3, 4, 5, 6, 9, 10, 11, 100, 10 ** 25])
     elif r2 < 0.7:
         try:
             kw["until"] = ds + datetime.timedelta(days=rng.randint(0, 900), seconds=rng.randint(0, 86399))
         except OverflowError:
             pass
     return freq, ds, kw
+
+def reset_lazy():
+    """put dateutil.rrule's lazily imported module globals (`parser`, `easter`) back to their import-time value None, so
+    that the next call runs as if it were the first use in the process (first-use / lazy-import paths)"""
+    import dateutil.rrule as R
+    for name in ("parser", "easter"):
+        if getattr(R, name, None) is not None and type(getattr(R, name)).__name__ == "module":
+            setattr(R, name, None)
 
 def build(freq, ds, kw):
     from dateutil import rrule as R
@@ -162,8 +179,9 @@ def impl_parse(text, **opts):
     wrap(R.rruleset, "exrule", lambda a, kw: calls.append(("add_exrule",)))
     wrap(R.rruleset, "rdate", lambda a, kw: calls.append(("rdate", a[0])))
     wrap(R.rruleset, "exdate", lambda a, kw: calls.append(("exdate", a[0])))
-    # rrule.py calls `parser.parse(...)` through the module object: patch the module attribute
-    R.parser = P
+    # rrule.py calls `parser.parse(...)` through the module object (imported lazily on first use): patch the module
+    # attribute and make this call a first use
+    reset_lazy()
     orig_parse = P.parse
     def rec_parse(timestr, parserinfo=None, **kw):
         d = orig_parse(timestr, parserinfo, **kw)
@@ -251,6 +269,26 @@ def canon_impl(res, model_line):
 
 # ------------------------------------------------------------------ spelling variants
 
+SIGNED_LISTS = ("BYSETPOS", "BYMONTHDAY", "BYYEARDAY", "BYWEEKNO", "BYEASTER")
+INT_PARTS = ("INTERVAL", "COUNT", "BYMONTH", "BYHOUR", "BYMINUTE", "BYSECOND") + SIGNED_LISTS
+
+def numspell(rng, txt, plus_ok, level, underscore_ok=True):
+    """another decimal spelling of the integer text `txt` that int() reads as the same number: an explicit '+' (where the
+    RFC grammar has a sign, or anywhere at level 3), leading zeros; at level 3 (correspondence only) also the '_' digit
+    separators that Python's int() accepts"""
+    neg = txt.startswith("-")
+    digits = txt.lstrip("+-")
+    if not digits.isdigit():
+        return txt
+    r = rng.random()
+    if r < 0.35:
+        digits = "0" * rng.randint(1, 2) + digits
+    elif level >= 3 and underscore_ok and r < 0.5 and len(digits) >= 2:
+        k = rng.randint(1, len(digits) - 1)
+        digits = digits[:k] + "_" + digits[k:]
+    sign = "-" if neg else ("+" if (plus_ok or level >= 3) and rng.random() < 0.4 else "")
+    return sign + digits
+
 def spell(rng, text, level):
     """a different RFC spelling of the same rule text produced by str(rule)"""
     lines = text.split("\n")
@@ -267,11 +305,16 @@ def spell(rng, text, level):
                     items = []
                     for it in v.split(","):
                         wd = it[-2:]; n = it[:-2]
-                        form = rng.randint(0, 2)
+                        form = rng.randint(0, 3)
                         if n and form == 1: it = "%s(%s)" % (wd, n)
                         elif n and form == 2: it = "%d%s" % (int(n), wd)        # drop the '+'
+                        elif n and form == 3:                                   # other decimal spellings of n, both syntaxes
+                            if rng.random() < 0.5: it = "%s(%s)" % (wd, numspell(rng, n, True, level))
+                            else: it = numspell(rng, n, True, level, underscore_ok=False) + wd
                         items.append(it)
                     v = ",".join(items)
+                elif k in INT_PARTS and rng.random() < 0.5:
+                    v = ",".join(numspell(rng, x, k in SIGNED_LISTS, level) for x in v.split(","))
                 if level > 1 and rng.random() < 0.5: k = k.lower()
                 if level > 1 and rng.random() < 0.3: v = v.lower()
                 np_.append(k + "=" + v)
@@ -431,11 +474,42 @@ def correspondence(ctx):
             ctx.c13_str_mismatch_rules.append({"rule": rl[2]})
             ctx.mismatch("rrs.str", q, bytes.fromhex(e[3:]).decode() if e[3:] != "." else "", bytes.fromhex(g[3:]).decode() if g.startswith("ok ") and g[3:] != "." else g)
     ctx.traces += len(reqs)
+    # the same two ops under an ambient first weekday (the model's str/parse do not depend on it; _wkst does)
+    import calendar
+    saved_fwd = calendar.firstweekday()
+    try:
+        areqs, aexp, aparse = [], [], []
+        for i in range(ctx.budget(40, 600)):
+            k = 1 + i % 6
+            calendar.setfirstweekday(k)
+            freq, ds, kw = week_sensitive_kwargs(rng)
+            try:
+                r = build(freq, ds, kw)
+            except (ValueError, Timeout):
+                continue
+            s_ = str(r)
+            areqs.append(str_request(r)); aexp.append("ok " + hexs(s_))
+            try:
+                res, _ = impl_parse(s_)
+            except Timeout:
+                continue
+            aparse.append(("rrs.parse 0000000 %s" % hexs(s_), res, k))
+        got = ctx.driver(areqs)
+        for q, e, g in zip(areqs, aexp, got):
+            if e != g:
+                ctx.mismatch("rrs.str (ambient first weekday)", q, e, g)
+        got = ctx.driver([q for q, _, _ in aparse])
+        for (q, res, k), g in zip(aparse, got):
+            if canon_impl(res, g) != g:
+                ctx.mismatch("rrs.parse (ambient first weekday %d)" % k, q, canon_impl(res, g), g)
+        ctx.traces += len(areqs) + len(aparse); ctx.count("ambient_correspondence", len(areqs))
+    finally:
+        calendar.setfirstweekday(saved_fwd)
     # parse side: str() outputs, spellings, folded, sets, malformed, mutated
     cases = []
     for r, s, _ in rules:
         cases.append((s, {}))
-        v = spell(rng, s, 2)
+        v = spell(rng, s, 3)
         cases.append((v, {}))
         if rng.random() < 0.5:
             cases.append((fold(rng, v, rng.random() < 0.5), {"unfold": True}))
@@ -554,6 +628,7 @@ def oracle_sets(ctx):
         if opts.get("compatible"): ref.rdate(ds)
         ctx.case((txt, tuple(sorted(opts)))); ctx.count("set_cases")
         try:
+            reset_lazy()
             got = R.rrulestr(txt, **opts)
             is_set = isinstance(got, R.rruleset)
             want_set = bool(use_r2 or rd or use_ex or exd or opts.get("forceset") or opts.get("compatible"))
@@ -603,7 +678,7 @@ def run_option_case(ctx, R, freq, ds, kw, scen_name, scen, rng):
     try:
         want_rule = build(freq, eds, ekw)
         want = view(head(iter(want_rule), 8))
-    except (ValueError, Timeout, ZeroDivisionError, OverflowError):
+    except (ValueError, Timeout, ZeroDivisionError, OverflowError, IndexError):
         return False
     value = str(build(freq, ds, kw)).split("\n")[1][6:]
     if "until" in kw:
@@ -669,6 +744,7 @@ def run_option_case(ctx, R, freq, ds, kw, scen_name, scen, rng):
         try:
             with warnings.catch_warnings():
                 warnings.simplefilter("ignore")
+                reset_lazy()
                 got_obj = limited(lambda: R.rrulestr(txt, **o), 2.0)
                 got = view(head(iter(got_obj), 8))
                 wantv = want if expect is want_rule else view(head(iter(expect), 8))
@@ -709,6 +785,227 @@ def oracle_options(ctx):
             if run_option_case(ctx, R, freq, ds, kw, name, scens[name], rng):
                 done += 1
     ctx.count("option_scenarios_run", done)
+
+# ---- state of the process: every text as the FIRST rrulestr call of a fresh interpreter
+
+CHILD = r"""
+import sys, json, datetime, itertools, warnings, signal, os
+warnings.simplefilter("ignore")
+def _late(*a):
+    print("timeout"); sys.stdout.flush(); os._exit(0)
+signal.signal(signal.SIGALRM, _late); signal.setitimer(signal.ITIMER_REAL, 1.5)     # rules that run dry are skipped
+text = bytes.fromhex(sys.argv[1]).decode() if sys.argv[1] != "." else ""
+spec = json.loads(sys.argv[2])
+from dateutil import tz
+from dateutil.rrule import rrulestr
+opts = {}
+for k, v in spec.items():
+    if k == "dtstart": opts[k] = datetime.datetime.fromisoformat(v)
+    elif k == "tzinfos": opts[k] = v
+    elif k == "tzids": opts[k] = {n: tz.tzoffset(n, off) for n, off in v.items()}
+    else: opts[k] = v
+try:
+    r = rrulestr(text, **opts)
+    occ = list(itertools.islice(iter(r), 6))
+    print("ok %s %s" % (type(r).__name__, ",".join("%s/%s" % (d.replace(tzinfo=None).isoformat(), None if d.tzinfo is None else d.utcoffset().total_seconds()) for d in occ)))
+except Exception as ex:
+    print("err " + ("ValueError" if isinstance(ex, ValueError) else type(ex).__name__))
+"""
+
+def fresh_cases(rng):
+    """texts chosen so that each exercises ONE lazy-import / first-use path of rrule.py as the first call of a process"""
+    D = "2024-02-26T10:15:00"
+    base = [
+        ("only RDATE",        "RRULE:FREQ=WEEKLY;COUNT=3\nRDATE:20240229T101500", {"dtstart": D}),
+        ("only RDATE x2",     "RRULE:FREQ=WEEKLY;COUNT=3\nRDATE:20240229T101500,20240301T101500", {"dtstart": D}),
+        ("RDATE + EXRULE",    "RRULE:FREQ=DAILY;COUNT=6\nEXRULE:FREQ=DAILY;INTERVAL=2;COUNT=2\nRDATE:20240310T101500", {"dtstart": D}),
+        ("only EXDATE",       "RRULE:FREQ=DAILY;COUNT=4\nEXDATE:20240227T101500", {"dtstart": D}),
+        ("only UNTIL",        "RRULE:FREQ=DAILY;UNTIL=20240301T101500", {"dtstart": D}),
+        ("only UNTIL, bare",  "FREQ=DAILY;UNTIL=20240301T101500", {"dtstart": D}),
+        ("only DTSTART",      "DTSTART:20240226T101500\nRRULE:FREQ=WEEKLY;COUNT=3", {}),
+        ("DTSTART + RDATE",   "DTSTART:20240226T101500\nRRULE:FREQ=WEEKLY;COUNT=3\nRDATE:20240229T101500", {}),
+        ("TZID first",        "DTSTART;TZID=Foo/Bar:20240226T101500\nRRULE:FREQ=WEEKLY;COUNT=3", {"tzids": {"Foo/Bar": 3600}}),
+        ("EXDATE;TZID first", "RRULE:FREQ=DAILY;COUNT=4\nEXDATE;TZID=Foo/Bar:20240227T101500", {"dtstart": "2024-02-26T10:15:00+01:00", "tzids": {"Foo/Bar": 3600}}),
+        ("bare value",        "FREQ=WEEKLY;COUNT=3;BYDAY=MO,WE", {"dtstart": D}),
+        ("bare value, no start", "FREQ=YEARLY;COUNT=2;BYEASTER=0", {"dtstart": D}),
+        ("forceset",          "RRULE:FREQ=WEEKLY;COUNT=3", {"dtstart": D, "forceset": True}),
+        ("forceset + RDATE",  "RDATE:20240229T101500", {"forceset": True}),
+        ("compatible",        "DTSTART:20240226T101500\nRRULE:FREQ=WEEKLY;COUNT=3;BYDAY=WE", {"compatible": True}),
+        ("compatible + RDATE", "DTSTART:20240226T101500\nRRULE:FREQ=WEEKLY;COUNT=3\nRDATE:20240229T101500", {"compatible": True}),
+        ("two RRULE",         "RRULE:FREQ=WEEKLY;COUNT=3\nRRULE:FREQ=DAILY;COUNT=2", {"dtstart": D}),
+        ("unfold + RDATE",    "RRULE:FREQ=WEEKLY;\n COUNT=3\nRDATE:2024\n 0229T101500", {"dtstart": D, "unfold": True}),
+        ("ignoretz + RDATE Z", "RRULE:FREQ=WEEKLY;COUNT=3\nRDATE:20240229T101500Z", {"dtstart": D, "ignoretz": True}),
+        ("tzinfos + RDATE",   "DTSTART:20240226T101500BRST\nRRULE:FREQ=WEEKLY;COUNT=3\nRDATE:20240229T101500BRST", {"tzinfos": {"BRST": -10800}}),
+        ("cache + RDATE",     "RRULE:FREQ=WEEKLY;COUNT=3\nRDATE:20240229T101500", {"dtstart": D, "cache": True}),
+        ("malformed RDATE",   "RRULE:FREQ=WEEKLY;COUNT=3\nRDATE:NOTADATE", {"dtstart": D}),
+        ("oversized RDATE",   "RRULE:FREQ=WEEKLY;COUNT=3\nRDATE:99999999999999999999", {"dtstart": D}),
+        ("oversized UNTIL",   "FREQ=DAILY;UNTIL=99999999999999999999", {"dtstart": D}),
+        ("BYEASTER first",    "DTSTART:20240226T101500\nRRULE:FREQ=YEARLY;COUNT=2;BYEASTER=1,-2", {}),
+        ("nth weekday two digits", "DTSTART:20151229T074500\nRRULE:FREQ=YEARLY;COUNT=4;BYDAY=+10WE", {}),
+    ]
+    # and a few generated rules, each with one date-bearing line added
+    extra = []
+    for _ in range(8):
+        freq, ds, kw = gen_kwargs(rng, small_years=False)
+        kw = {k: v for k, v in kw.items() if not (isinstance(v, (tuple, list)) and len(v) == 0)}
+        try:
+            txt = str(build(freq, ds, kw))
+        except Exception:
+            continue
+        rline = txt.split("\n")[1]
+        add = rng.choice(["RDATE:" + stamp(ds + datetime.timedelta(days=3, hours=1)), "EXDATE:" + stamp(ds + datetime.timedelta(days=1)), None])
+        if add and rng.random() < 0.5:
+            extra.append(("generated, dtstart= + " + add.split(":")[0], rline + "\n" + add, {"dtstart": ds.isoformat()}))
+        else:
+            extra.append(("generated", txt + ("\n" + add if add else ""), {}))
+    return base + extra
+
+def outcome_in_process(text, spec):
+    from dateutil import rrule as R, tz
+    opts = {}
+    for k, v in spec.items():
+        if k == "dtstart": opts[k] = datetime.datetime.fromisoformat(v)
+        elif k == "tzids": opts[k] = {n: tz.tzoffset(n, off) for n, off in v.items()}
+        else: opts[k] = v
+    try:
+        with warnings.catch_warnings():
+            warnings.simplefilter("ignore")
+            r = limited(lambda: R.rrulestr(text, **opts), 2.0)
+            occ = head(iter(r), 6)
+        return ("ok %s %s" % (type(r).__name__, ",".join("%s/%s" % (d.replace(tzinfo=None).isoformat(), None if d.tzinfo is None else d.utcoffset().total_seconds()) for d in occ))).strip()
+    except Timeout:
+        return None
+    except Exception as ex:
+        return "err " + ("ValueError" if isinstance(ex, ValueError) else type(ex).__name__)
+
+def oracle_fresh(ctx):
+    """each text evaluated (a) as the first rrulestr call of a fresh interpreter, (b) in this process right after the
+    lazily filled module globals were reset, (c) in this warm process: the three outcomes must agree, and a failure must be a
+    ValueError"""
+    import subprocess, json, sys
+    from vlib import REPO
+    import os
+    rng = ctx.subrng("oracle-fresh")
+    cases = fresh_cases(rng)
+    if ctx.tier == "thorough" or ctx.escalated:
+        for _ in range(4):
+            cases += fresh_cases(rng)[-8:]
+    env = dict(os.environ, PYTHONPATH=os.path.join(REPO, "src"), TZ="UTC")
+    env.pop("PYTHONSTARTUP", None)
+    results = [None] * len(cases)
+    batch = 8
+    for b in range(0, len(cases), batch):
+        procs = []
+        for i in range(b, min(b + batch, len(cases))):
+            name, text, spec = cases[i]
+            procs.append((i, subprocess.Popen([sys.executable, "-c", CHILD, hexs(text), json.dumps(spec)], env=env,
+                                              stdout=subprocess.PIPE, stderr=subprocess.PIPE, text=True)))
+        for i, pr in procs:
+            try:
+                out, err = pr.communicate(timeout=15)
+                results[i] = out.strip().splitlines()[-1] if out.strip() else "child-failed: " + err.strip().splitlines()[-1][:200] if err.strip() else "child-failed"
+            except subprocess.TimeoutExpired:
+                pr.kill(); results[i] = None
+    for (name, text, spec), fresh in zip(cases, results):
+        if fresh is None or fresh == "timeout":
+            ctx.count("fresh_child_timeout"); continue
+        warm = outcome_in_process(text, spec)
+        reset_lazy()
+        first_use = outcome_in_process(text, spec)
+        if warm is None or first_use is None:
+            continue
+        case = {"kind": "fresh", "path": name, "text": text, "opts": spec}
+        ctx.case((text, json.dumps(spec, sort_keys=True), "fresh")); ctx.count("fresh_interpreter_cases")
+        for label, got in (("as the first rrulestr call of a fresh interpreter", fresh), ("right after the lazily imported module globals were reset", first_use)):
+            if got != warm:
+                ctx.violation("rrulestr depends on the state of the process (%s): %s %s, in a warm process %s" % (name, label, got[:80], warm[:80]),
+                              dict(case, outcome_first=got, outcome_warm=warm), None)
+                break
+            if got.startswith("err ") and got != "err ValueError":
+                ctx.violation("rrulestr %s raised %s instead of ValueError" % (label, got[4:]), dict(case, outcome_first=got, outcome_warm=warm), None)
+                break
+
+# ---- the ambient first weekday (calendar.setfirstweekday): process-wide state that rrule() reads when wkst is not given
+
+def week_sensitive_kwargs(rng):
+    """rules whose occurrences depend on the week start: WEEKLY with interval >= 2 and several BYDAY, BYWEEKNO;
+    wkst absent, MO (as 0 and as the weekday object), or another day"""
+    from dateutil import rrule as R
+    ds = datetime.datetime(rng.choice([1997, 2000, 2015, 2024]), rng.randint(1, 12), rng.randint(1, 28), 9, 0, 0)
+    kw = {"count": rng.randint(3, 8)}
+    w = rng.choice(["absent", "absent", 0, R.MO, rng.randint(1, 6), R.weekdays[rng.randint(1, 6)]])
+    if w != "absent":
+        kw["wkst"] = w
+    if rng.random() < 0.6:
+        freq = R.WEEKLY
+        kw["interval"] = rng.choice([2, 2, 3, 4])
+        kw["byweekday"] = rng.sample(range(7), rng.randint(2, 4))
+    else:
+        freq = R.YEARLY
+        kw["byweekno"] = rng.sample([1, 2, 20, 52, 53, -1], rng.randint(1, 2))
+        if rng.random() < 0.6:
+            kw["byweekday"] = rng.sample(range(7), rng.randint(1, 3))
+    return freq, ds, kw
+
+def oracle_ambient(ctx):
+    import calendar
+    from dateutil import rrule as R
+    rng = ctx.subrng("oracle-ambient")
+    saved = calendar.firstweekday()
+    try:
+        for i in range(ctx.budget(70, 2000)):
+            if ctx.escalated and len(ctx.violations) >= 5:
+                break
+            k = i % 7
+            calendar.setfirstweekday(k)
+            freq, ds, kw = week_sensitive_kwargs(rng) if rng.random() < 0.8 else gen_kwargs(rng, small_years=False)
+            kw = {a: v for a, v in kw.items() if not (isinstance(v, (tuple, list)) and len(v) == 0)}
+            try:
+                r = build(freq, ds, kw)
+                base = head(iter(r))
+                s = str(r)
+            except (ValueError, Timeout, ZeroDivisionError, OverflowError, IndexError):
+                continue
+            case = {"kind": "ambient", "ambient_firstweekday": k, "rule_wkst": r._wkst, "text": s, "kwargs": repr(kw), "freq": freq, "dtstart": ds.isoformat()}
+            ctx.case((s, k, "ambient")); ctx.count("ambient_%d" % k)
+            try:
+                with warnings.catch_warnings():
+                    warnings.simplefilter("ignore")
+                    got = head(iter(R.rrulestr(s)))
+            except Timeout:
+                continue
+            except Exception as ex:
+                ctx.violation("under calendar.setfirstweekday(%d) rrulestr(str(rule)) raised %s" % (k, exc_kind(ex)), case, repr(ex)); continue
+            if got != base:
+                # D-C13-ambient-wkst is claimed only with: model = implementation for str() and the parse of that text, and the
+                # reparsed occurrences being those of the same arguments with wkst = the ambient value
+                try:
+                    res, _ = impl_parse(s)
+                    m = ctx.driver([str_request(r), "rrs.parse 0000000 %s" % hexs(s)])
+                    case["model_agrees_with_implementation"] = bool(m[0] == "ok " + hexs(s) and canon_impl(res, m[1]) == m[1])
+                    case["explained_by_ambient_week_start"] = bool(head(iter(build(freq, ds, dict(kw, wkst=k)))) == got)
+                except Exception as ex:
+                    case["model_agrees_with_implementation"] = False; case["matcher_error"] = repr(ex)
+                ctx.violation("under calendar.setfirstweekday(%d) rrulestr(str(rule)) generates different occurrences" % k, case,
+                              {"rule": [d.isoformat() for d in base[:4]], "reparsed": [d.isoformat() for d in got[:4]]})
+                continue
+            # text -> rule under the ambient value: an explicit WKST in the text wins, no WKST means the ambient value
+            for wk_txt, wk in (("", k), (";WKST=MO", 0), (";WKST=SU", 6)):
+                if "WKST=" in s:
+                    continue
+                try:
+                    want = head(iter(build(freq, ds, dict(kw, wkst=wk))))
+                    with warnings.catch_warnings():
+                        warnings.simplefilter("ignore")
+                        gotw = head(iter(R.rrulestr(s + wk_txt)))
+                except (ValueError, Timeout, ZeroDivisionError, OverflowError, IndexError):
+                    continue
+                ctx.case((s + wk_txt, k, "ambient-text"))
+                if gotw != want:
+                    ctx.violation("under calendar.setfirstweekday(%d) the text %r does not mean wkst=%d" % (k, s + wk_txt, wk),
+                                  dict(case, kind="ambient-text", text=s + wk_txt), None)
+    finally:
+        calendar.setfirstweekday(saved)
 
 def oracle_malformed(ctx):
     from dateutil import rrule as R
@@ -781,9 +1078,35 @@ def oracle_malformed(ctx):
                           {"kind": "malformed", "text": txt, "opts": sorted(opts), "outcome": out}, None)
 
 
+def explain_empty_by(ctx, case, r, s, freq, ds, kw, observed):
+    """fill in the fields the D-C13-empty-by-list matcher needs: claimed only when (1) the model agrees with the
+    implementation on this very rule, for str() and for the parse of that text, and (2) what the reparsed rule does
+    (its occurrences, or the exception it raises while iterating) is exactly what the same keyword arguments WITHOUT the
+    empty parts do (i.e. the difference is the re-derived default and nothing else)"""
+    empty_by = sorted(k for k, v in kw.items() if k.startswith("by") and isinstance(v, (tuple, list)) and len(v) == 0)
+    if not empty_by:
+        return
+    case["empty_by"] = empty_by
+    try:
+        res, _ = impl_parse(s)
+        m = ctx.driver([str_request(r), "rrs.parse 0000000 %s" % hexs(s)])
+        case["model_agrees_with_implementation"] = bool(m[0] == "ok " + hexs(s) and canon_impl(res, m[1]) == m[1])
+        try:
+            without = build(freq, ds, {k: v for k, v in kw.items() if k not in empty_by})
+            seen = ("occurrences", head(iter(without)))
+        except Timeout:
+            raise
+        except Exception as ex2:
+            seen = ("raised", exc_kind(ex2))
+        case["explained_by_default_of_dropped_part"] = bool(seen == observed)
+    except Exception as ex:
+        case["model_agrees_with_implementation"] = False; case["matcher_error"] = repr(ex)
+
 def oracle(ctx):
     from dateutil import rrule as R, tz
     # the cheap sections first, so that the failing-input search after a correspondence mismatch reaches them early
+    oracle_fresh(ctx)
+    oracle_ambient(ctx)
     oracle_options(ctx)
     oracle_sets(ctx)
     oracle_malformed(ctx)
@@ -804,7 +1127,7 @@ def oracle(ctx):
         try:
             r = build(freq, ds, kw)
             base = head(iter(r))
-        except (ValueError, Timeout, ZeroDivisionError, OverflowError):
+        except (ValueError, Timeout, ZeroDivisionError, OverflowError, IndexError):
             # interval <= 0 is accepted by the constructor but may fail or loop when iterated (C01's domain): nothing to compare
             ctx.count("skipped_ctor_or_slow"); continue
         s = str(r)
@@ -819,27 +1142,16 @@ def oracle(ctx):
             ctx.count("skipped_ctor_or_slow"); continue
         except Exception as ex:
             ctx.case(key)
-            ctx.violation("rrulestr(str(rule)) raised %s" % exc_kind(ex), {"kind": "roundtrip", "text": s, "kwargs": repr(kw), "freq": freq, "dtstart": ds.isoformat()}, repr(ex))
+            case = {"kind": "roundtrip", "text": s, "kwargs": repr(kw), "freq": freq, "dtstart": ds.isoformat()}
+            explain_empty_by(ctx, case, r, s, freq, ds, kw, ("raised", exc_kind(ex)))
+            ctx.violation("rrulestr(str(rule)) raised %s" % exc_kind(ex), case, repr(ex))
             continue
         ctx.case(key); ctx.count("roundtrip")
         if shown < 3:
             ctx.sample({"str(rule)": s, "first": [d.isoformat() for d in base[:3]]}); shown += 1
         if got != base:
             case = {"kind": "roundtrip", "text": s, "kwargs": repr(kw), "freq": freq, "dtstart": ds.isoformat()}
-            empty_by = sorted(k for k, v in kw.items() if k.startswith("by") and isinstance(v, (tuple, list)) and len(v) == 0)
-            if empty_by:
-                # D-C13-empty-by-list is claimed only when (1) the model agrees with the implementation on this very rule, for
-                # str() and for the parse of that text, and (2) the reparsed occurrences are exactly those of the same
-                # keyword arguments WITHOUT the empty parts (i.e. the difference is the re-derived default and nothing else)
-                case["empty_by"] = empty_by
-                try:
-                    res, _ = impl_parse(s)
-                    m = ctx.driver([str_request(r), "rrs.parse 0000000 %s" % hexs(s)])
-                    case["model_agrees_with_implementation"] = bool(m[0] == "ok " + hexs(s) and canon_impl(res, m[1]) == m[1])
-                    without = build(freq, ds, {k: v for k, v in kw.items() if k not in empty_by})
-                    case["explained_by_default_of_dropped_part"] = bool(head(iter(without)) == got)
-                except Exception as ex:
-                    case["model_agrees_with_implementation"] = False; case["matcher_error"] = repr(ex)
+            explain_empty_by(ctx, case, r, s, freq, ds, kw, ("occurrences", got))
             ctx.violation("rrulestr(str(rule)) generates different occurrences", case,
                           {"rule": [d.isoformat() for d in base[:4]], "reparsed": [d.isoformat() for d in got[:4]]})
             continue
@@ -901,7 +1213,15 @@ def empty_by_list(case):
             and case.get("model_agrees_with_implementation") is True
             and case.get("explained_by_default_of_dropped_part") is True)
 
-KNOWN = {"D-C13-empty-by-list": lambda v: empty_by_list(v["case"])}
+def ambient_wkst(case):
+    """D-C13-ambient-wkst, tight: ambient first weekday != 0, the rule's own week start is Monday (so WKST is not printed),
+    the model reproduces the implementation's str() and parse on this rule, and the reparsed occurrences are those of the same
+    arguments with wkst = the ambient value"""
+    return (case.get("kind") == "ambient" and case.get("ambient_firstweekday") not in (0, None) and case.get("rule_wkst") == 0
+            and case.get("model_agrees_with_implementation") is True and case.get("explained_by_ambient_week_start") is True)
+
+KNOWN = {"D-C13-empty-by-list": lambda v: empty_by_list(v["case"]),
+         "D-C13-ambient-wkst": lambda v: ambient_wkst(v["case"])}
 
 def replay(ctx, payload):
     """re-evaluate the recorded failing case on the current tree (option cases are rebuilt from the recorded rule,
